@@ -116,3 +116,29 @@ func (m *rlModel) request(t time.Duration, k int, maxWait time.Duration) time.Du
 	m.used = trial
 	return wait
 }
+
+// rlAlt is one admissible answer to a request together with the state it leaves.
+type rlAlt struct {
+	want time.Duration
+	st   *rlModel
+}
+
+// requestAlts returns every admissible answer. There is one, except for a
+// negative max wait (other than the "no limit" value -1) on a request that
+// needs no waiting: the documentation refuses a request "whose wait would
+// exceed the max wait", which a zero wait does for a negative max wait, but a
+// request that needs no waiting at all may just as well be granted - the smooth
+// and the bursty limiter differ here and both are accepted. A request that
+// would have to wait must be refused.
+func (m *rlModel) requestAlts(t time.Duration, k int, maxWait time.Duration) []rlAlt {
+	c := m.clone()
+	want := c.request(t, k, maxWait)
+	alts := []rlAlt{{want, c}}
+	if maxWait < -1 && want == -1 {
+		g := m.clone()
+		if w := g.request(t, k, -1); w == 0 {
+			alts = append(alts, rlAlt{0, g})
+		}
+	}
+	return alts
+}
